@@ -22,6 +22,7 @@ RULES = {
     "C04.a": "gather/scatter pairing: what is gathered with mask m is scattered back through the same value of m (def-use signatures)",
     "C04.b": "predict-time purity: no store to self.* and no global-stream draw reachable from predict/transform/decision_function/predict_proba/score",
     "C04.c": "clone_with_fitted_parameters only installs copies (recursive clone or deepcopy), never the original object",
+    "C04.e": "row independence: in predict-like methods no batch statistic (a reduction over the rows of data-dependent values: unique, sort, max/min/mean/sum without axis=1, set of labels) flows into a returned value or decides the branch producing it (emptiness tests of sub-batches and the documented balanced predictions excepted)",
     "C04.d": "compiled criterion classes define or inherit __getstate__/__setstate__ and __reduce__-compatible constructors (Cython parse tree)",
 }
 
@@ -228,6 +229,62 @@ def check_d(ck, repo):
     return n
 
 
+# ------------------------------------------------------------------ C04.e
+# not row-wise by definition, or the documented exception
+E_EXEMPT_FUNCS = {
+    "score": "a score aggregates over the batch by definition",
+    "ts_mape": "a metric aggregates over the batch by definition",
+}
+E_EXEMPT_MODULES = dict(B_EXEMPT_RNG_MODULES)
+E_EXEMPT_CLASSES = {
+    "BaseTimeSeries": "time-series predictors read the rows as one series (not row-wise)",
+    "TimeSeriesDifference": "differencing reads consecutive rows by definition",
+    "TimeSeriesDifferenceInv": "integration (cumulative sum) reads consecutive rows by definition",
+    "BaseReciprocalTimeSeriesTransformer": "time-series transformer",
+}
+E_ROOTS = tuple(m for m in PRED if m != "score")
+
+
+def check_e(ck, repo):
+    from .rowwise import BatchStatistics
+    from . import sem
+
+    n = 0
+    seen = set()
+    for ci in estimator_classes(repo):
+        if any(getattr(c, "name", None) in E_EXEMPT_CLASSES for c in repo.mro(ci)):
+            continue
+        roots = []
+        for m in E_ROOTS:
+            _, fi = repo.find_method(ci, m)
+            if fi is not None:
+                roots.append(fi)
+        for fi in reachable_functions(repo, roots):
+            if fi.qualname in seen:
+                continue
+            seen.add(fi.qualname)
+            if fi.name in E_EXEMPT_FUNCS or fi.module.name in E_EXEMPT_MODULES or fi.name in ("__init__", "set_params", "get_params", "fit", "_fit_l1", "_fit_parallel", "_fit_reglin", "fit_improve"):
+                continue
+            if fi.cls is not None and fi.cls.name in E_EXEMPT_CLASSES:
+                continue
+            data = {p for p in fi.named_params if p not in ("self", "cls")}
+            if not data:
+                continue
+            n += 1
+            found = []
+            for c, msg in BatchStatistics(fi, data).findings():
+                st = enclosing_stmt(c)
+                if sem.holds_at(repo, fi, st, "self.balanced_predictions", True):
+                    continue  # the documented exception
+                found.append((st, msg))
+            label = f"{fi.cls.name + '.' if fi.cls else ''}{fi.name}"
+            if not found:
+                ck.holds("C04.e", fi, f"{label}: no batch statistic reaches a returned value", "reductions are row-wise (axis=1, single rows) or do not depend on the data")
+            for st, msg in found:
+                ck.violated("C04.e", fi, st, f"{label}: {msg}: the output for a row depends on which other rows are in the batch")
+    return n
+
+
 def run(ck):
     repo = ck.repo
     for k, v in RULES.items():
@@ -240,12 +297,14 @@ def run(ck):
     except ImportError as e:
         ck.unknown("C04.d", None, "Cython parser", f"cannot import Cython's parser: {e}", file="-", function="-", line=0)
         nd = 0
+    ck.extra["rowwise_functions"] = check_e(ck, repo)
     ck.extra["pairing_instances"] = na
     ck.extra["exemptions"] = {f"{k[0]}.{k[1]}": v for k, v in B_EXEMPT_ATTR.items()}
     ck.require_count("C04.a", 5, "piecewise return pairs x3, scatter loop, fallback; DTLR predict_proba x2, decision_path x2")
     ck.require_count("C04.b", 15, "estimator classes with predict-like methods")
     ck.require_count("C04.c", 2, "setattr sites and result constructions of clone_with_fitted_parameters")
     ck.require_count("C04.d", 2, "criterion classes")
+    ck.require_count("C04.e", 40, "predict-reachable functions with a data parameter")
 
 
 # ---------------------------------------------------------------- self-test
@@ -267,11 +326,18 @@ WITNESSES = [
     {"name": "kmeansl1-predict-caches", "file": "mlinsights/mlmodel/kmeans_l1.py", "rule": "C04.b", "old": "        labels = labels.astype(numpy.int32, copy=False)\n", "new": "        labels = labels.astype(numpy.int32, copy=False)\n        self.last_labels_ = labels\n"},
     {"name": "clone-fitted-shares-state", "file": _ST, "rule": "C04.c", "old": "                    v1 = getattr(obj1, k)\n                    setattr(obj2, k, clone_with_fitted_parameters(v1))\n                else:\n                    raise RuntimeError(f\"Cloned", "new": "                    v1 = getattr(obj1, k)\n                    setattr(obj2, k, v1)\n                else:\n                    raise RuntimeError(f\"Cloned"},
     {"name": "clone-fitted-returns-same-list", "file": _ST, "rule": "C04.c", "old": "        res = list(clone_with_fitted_parameters(o) for o in est)\n", "new": "        res = list(o for o in est)\n"},
+    {"name": "ptr-leaves-ranked-in-batch", "file": "mlinsights/mlmodel/piecewise_tree_regression.py", "rule": "C04.e", "old": "        mat = numpy.argmax(leaves, 1)\n        res = numpy.asarray(mat).ravel()\n", "new": "        mat = numpy.argmax(leaves, 1)\n        _, res = numpy.unique(numpy.asarray(mat).ravel(), return_inverse=True)\n"},
+    {"name": "interval-predict-centred-on-batch", "file": "mlinsights/mlmodel/interval_regressor.py", "rule": "C04.e", "old": "        preds = self.predict_all(X)\n        return preds.mean(axis=1)\n", "new": "        preds = self.predict_all(X)\n        preds = preds - preds.mean(axis=0)\n        return preds.mean(axis=1)\n"},
+    {"name": "interval-sorted-over-rows", "file": "mlinsights/mlmodel/interval_regressor.py", "rule": "C04.e", "old": "        for i in range(preds.shape[0]):\n            preds[i, :] = numpy.sort(preds[i, :])\n        return preds\n", "new": "        preds = numpy.sort(preds, axis=0)\n        return preds\n"},
+    {"name": "interval-shortcut-on-batch-max", "file": "mlinsights/mlmodel/interval_regressor.py", "rule": "C04.e", "old": "        preds = self.predict_all(X)\n        return preds.mean(axis=1)\n", "new": "        preds = self.predict_all(X)\n        if preds.max() <= 0:\n            return preds[:, 0]\n        return preds.mean(axis=1)\n"},
     {"name": "criterion-no-getstate", "file": _CY, "rule": "C04.d", "old": "    def __getstate__(self):", "new": "    def _getstate_disabled(self):"},
 ]
 TWINS = [
     {"name": "dtlr-loop-over-sides-continue", "file": _DT, "old": "        if self.above is not None and n_above > 0:\n            prob_above = self.above.predict_proba(X[above])\n            prob[above] = prob_above\n        if self.below is not None and n_below > 0:\n            prob_below = self.below.predict_proba(X[below])\n            prob[below] = prob_below\n", "new": "        for child, side in ((self.above, above), (self.below, below)):\n            if child is None or not side.any():\n                continue\n            prob[side] = child.predict_proba(X[side])\n"},
     {"name": "dtlr-local-mask-alias-free", "file": _DT, "old": "            prob_above = self.above.predict_proba(X[above])\n            prob[above] = prob_above\n", "new": "            prob[above] = self.above.predict_proba(X[above])\n"},
+    {"name": "interval-sorted-rowwise-axis", "file": "mlinsights/mlmodel/interval_regressor.py", "old": "        for i in range(preds.shape[0]):\n            preds[i, :] = numpy.sort(preds[i, :])\n        return preds\n", "new": "        preds = numpy.sort(preds, axis=1)\n        return preds\n"},
+    {"name": "interval-mean-by-sum", "file": "mlinsights/mlmodel/interval_regressor.py", "old": "        return preds.mean(axis=1)\n", "new": "        return preds.sum(axis=1) / preds.shape[1]\n"},
+    {"name": "interval-empty-batch-shortcut", "file": "mlinsights/mlmodel/interval_regressor.py", "old": "        preds = self.predict_all(X)\n        return preds.mean(axis=1)\n", "new": "        preds = self.predict_all(X)\n        if preds.shape[0] == 0:\n            return numpy.empty((0,))\n        return preds.mean(axis=1)\n"},
     {"name": "piecewise-return-parenthesised", "file": _PE, "old": "    return ind, est.predict(X[ind, :])\n", "new": "    Xi = X[ind, :]\n    return (ind, est.predict(Xi))\n"},
     {"name": "piecewise-fallback-renamed", "file": _PE, "old": "        Xmissed = X[indall]\n        if Xmissed.shape[0] > 0:\n            meth = getattr(self.mean_estimator_, method)\n            missed = meth(Xmissed)\n            pred[indall] = missed\n", "new": "        Xrest = X[indall]\n        if Xrest.shape[0] > 0:\n            meth = getattr(self.mean_estimator_, method)\n            pred[indall] = meth(Xrest)\n"},
 ]
